@@ -66,7 +66,7 @@ OUTSIDE = ["num_workers > 3, queue > 2, more than two steps", "DBOS runtime repl
 
 QMAX = B(1, 2)
 TS = B(3, 6)   # timestamp / clock range of the cheap obligations
-TSF = B(2, 4)  # ... of the failure result (its elapsed time is realised at the pydantic boundary: one path per value)
+TSF = B(2, 3)  # ... of the failure result (its elapsed time is realised at the pydantic boundary: one path per value)
 
 
 # ----------------------------------------------------------------------------------------------- canonical form
@@ -141,7 +141,7 @@ def _result(kind: int, failed_at: int):
             partitions_quick=[f"kind == {k}" for k in range(9) if k != 2] + [f"kind == 2 and pol == {p} and att {a}" for p in (0, 1, 2, 4) for a in ("== 0", ">= 1")] + ["kind == 2 and pol == 3"],
             partitions_thorough=[f"kind == {k} and nw == {n}" for k in range(9) if k != 2 for n in (1, 2, 3)]
             + [f"kind == 2 and pol == {p} and att == {a} and nw == {n}" for p in (0, 1, 2, 4) for a in (0, 1, 2) for n in (1, 2, 3)]
-            + [f"kind == 2 and pol == 3 and nw == {n}" for n in (1, 2, 3)],  # (pol 3, att 0) is the class of KF-C11-1: do not split by att
+            + [f"kind == 2 and pol == 3 and nw == {n} and att >= 1 and d == {d}" for n in (1, 2, 3) for d in range(4)],  # (pol 3, att 0) is the class of KF-C11-1; the cover check accepts it as excluded
             what="TickStepResult (9 result kinds incl. failure with 5 policy kinds): live reduce (now1, run_id) and replay reduce "
                  "(now2, None) from states equal up to timestamps give states equal up to timestamps",
             bounds={"num_workers": "1..3", "queue": "0..QMAX", "attempts": "0..2", "timestamps/now": "0..6 each, independent",
